@@ -45,6 +45,9 @@ Section LABELS.
     unfold Le. cbn. destruct (Z.ltb_spec D (t_date r)), (Z.leb_spec (t_date r) D); try reflexivity; lia.
   Qed.
 
+  Lemma ev_type_in r : ev (ts_row_env r) (In (Id "type") [IntV 2; IntV 0]) = Some (b2v (metric_row r)).
+  Proof. unfold metric_row. cbn. destruct (t_type r =? 2)%Z, (t_type r =? 0)%Z; reflexivity. Qed.
+
   (* THE LABELS REQUEST UNDER THE INTERPRETER: the statement getFetchRequest builds (the tree whose rendering is compared byte
      for byte with what Select sends) answers the rows of time_series between the two date bounds whose fingerprint is in
      the planned set *)
@@ -55,8 +58,9 @@ Section LABELS.
     unfold eval_fetch, labels_fetch, fetch_rows. cbn [and_where s_where set_where set_from set_cols empty_select and_into
       s_groupby s_having s_limit s_cols cols_eqb_labels String.eqb Ascii.eqb Bool.eqb andb].
     f_equal. f_equal. apply filter_ext. intros r.
-    rewrite is_true_and. cbn [forallb]. rewrite ev_in_raws, ev_ge_date, ev_le_date, !is_true_b2v, andb_true_r.
-    destruct (existsb (N.eqb (t_fp r)) fps), (from_day (from_ms * 1000000) <=? t_date r)%Z, (t_date r <=? to_ms / 86400000)%Z; reflexivity.
+    rewrite is_true_and. cbn [forallb]. rewrite ev_in_raws, ev_ge_date, ev_le_date, ev_type_in, !is_true_b2v, andb_true_r.
+    destruct (existsb (N.eqb (t_fp r)) fps), (from_day (from_ms * 1000000) <=? t_date r)%Z, (t_date r <=? to_ms / 86400000)%Z,
+      (metric_row r); reflexivity.
   Qed.
 End LABELS.
 
@@ -89,3 +93,60 @@ Example labels_request_example :
      {| t_date := 19675; t_fp := 18446744073709551615; t_type := 2; t_labels := [("a", "b")] |}] =
   Some [(41%N, [("__name__", "up")]); (18446744073709551615%N, [("a", "b")])].
 Proof. vm_compute. reflexivity. Qed.
+
+(* ---------- the type conjunct of the labels request (fix of prom-labels-fetch-untyped) ----------
+   The series rows of LOG streams (type 1) cannot influence what a PromQL Select returns: the reply to the labels
+   request is the same with and without them.  Before the fix the request read every row of the fingerprint
+   (fetch_rows_untyped): a log stream sharing the fingerprint of a metric series under another label set (two label
+   sets with one 32-bit Bernstein fingerprint: C04's finding bernstein-fingerprint-32-bit; every other PromQL read is
+   typed) answered its own labels, and as the last answered row wins the metric series reached the engine under the log
+   stream's label set. *)
+Theorem fetch_rows_metric_only D1 D2 fps series :
+  fetch_rows D1 D2 fps series = fetch_rows D1 D2 fps (filter metric_row series).
+Proof.
+  unfold fetch_rows. f_equal. induction series as [|s series IH]; [reflexivity|]. cbn [filter].
+  destruct (metric_row s) eqn:E.
+  - cbn [filter]. rewrite E, andb_true_r, IH. reflexivity.
+  - rewrite andb_false_r. exact IH.
+Qed.
+
+Corollary select_ignores_log_streams re_match re_full cluster dbname h ms db logs :
+  Forall (fun s => t_type s = 1%Z) logs ->
+  prom_select re_match re_full cluster dbname h ms
+    {| d_gin := d_gin db; d_samples := d_samples db; d_series := d_series db ++ logs |} =
+  prom_select re_match re_full cluster dbname h ms db.
+Proof.
+  intros Hl. unfold prom_select, prom_query_rows. cbn [d_gin d_samples d_series].
+  assert (Hf : forall D1 D2 fps, fetch_rows D1 D2 fps (d_series db ++ logs) = fetch_rows D1 D2 fps (d_series db)).
+  { intros. rewrite fetch_rows_metric_only, (fetch_rows_metric_only _ _ _ (d_series db)). rewrite filter_app.
+    replace (filter metric_row logs) with (@nil tsrow); [now rewrite app_nil_r|].
+    symmetry. induction Hl as [|s l Hs _ IH]; [reflexivity|]. cbn [filter]. unfold metric_row at 1. rewrite Hs. exact IH. }
+  destruct db as [g sm se]. cbn [d_gin d_samples d_series] in *.
+  replace (eval_prom re_match (fst (querier_transpile re_full cluster dbname h ms)) {| d_gin := g; d_samples := sm; d_series := se ++ logs |})
+    with (eval_prom re_match (fst (querier_transpile re_full cluster dbname h ms)) {| d_gin := g; d_samples := sm; d_series := se |}).
+  2:{ unfold eval_prom, eval_bucketed, eval_main. reflexivity. }
+  destruct (eval_prom re_match (fst (querier_transpile re_full cluster dbname h ms)) {| d_gin := g; d_samples := sm; d_series := se |}); [|reflexivity].
+  now rewrite Hf.
+Qed.
+
+(* the witness: metric series 31 {__name__="up", instance="h:9090"} and a log stream {job="logs", stream="stdout"} whose series
+   row carries the same fingerprint 31 *)
+Definition twin_logs : list tsrow := [{| t_date := 19675; t_fp := 31; t_type := 1; t_labels := [("job", "logs"); ("stream", "stdout")] |}].
+Definition twin_db : database := {| d_gin := d_gin w_db; d_samples := d_samples w_db; d_series := d_series w_db ++ twin_logs |}.
+Definition prom_select_untyped (re_match re_full : string -> string -> bool) (cluster : bool) (dbname : string) (h : hints)
+    (ms : list matcher) (db : database) : option (list out_series) :=
+  match prom_query_rows re_match re_full cluster dbname h ms db with
+  | Some rows => Some (select_series (snd (querier_transpile re_full cluster dbname h ms)) rows
+                         (fetch_rows_untyped (day_from h) (day_to h) (fps_of rows) (d_series db)))
+  | None => None
+  end.
+Example log_twin_pollutes_untyped_request :
+  (* the request as it was: series 31 comes back as {job="logs", stream="stdout"}, a label set that does not even satisfy the selector *)
+  prom_select_untyped re_none re_none false "qryn" w_hints w_ms twin_db =
+  Some [{| o_labels := [("__name__", "up"); ("env", "dev")]; o_fp := 32; o_samples := [(1700000001000, 2)] |};
+        {| o_labels := [("job", "logs"); ("stream", "stdout")]; o_fp := 31; o_samples := [(1700000001000, 1)] |}] /\
+  (* the typed request: under its own label set *)
+  prom_select re_none re_none false "qryn" w_hints w_ms twin_db =
+  Some [{| o_labels := [("__name__", "up"); ("env", "dev")]; o_fp := 32; o_samples := [(1700000001000, 2)] |};
+        {| o_labels := [("__name__", "up"); ("instance", "h:9090")]; o_fp := 31; o_samples := [(1700000001000, 1)] |}].
+Proof. split; vm_compute; reflexivity. Qed.
